@@ -52,12 +52,136 @@ pub fn build_real_binary() -> Result<PathBuf, String>
     if p.is_file() { Ok(p) } else { Err("binary not found after build".to_string()) }
 }
 
+/// `Command::output` with a time limit: None = the process did not end in time (it is killed).
+fn output_limited(cmd: &mut Command, secs: u64) -> Option<std::process::Output>
+{
+    let mut child = cmd.stdout(Stdio::piped()).stderr(Stdio::piped()).spawn().ok()?;
+    let mut o = child.stdout.take()?;
+    let mut e = child.stderr.take()?;
+    let ro = std::thread::spawn(move || { let mut v = vec![]; let _ = o.read_to_end(&mut v); v });
+    let re = std::thread::spawn(move || { let mut v = vec![]; let _ = e.read_to_end(&mut v); v });
+    let started = Instant::now();
+    let status = loop
+    {
+        match child.try_wait()
+        {
+            Ok(Some(st)) => break Some(st),
+            Ok(None) => {},
+            Err(_) => break None,
+        }
+        if started.elapsed() > Duration::from_secs(secs) { let _ = child.kill(); let _ = child.wait(); break None; }
+        std::thread::sleep(Duration::from_millis(2));
+    };
+    let stdout = ro.join().unwrap_or_default();
+    let stderr = re.join().unwrap_or_default();
+    status.map(|status| std::process::Output { status, stdout, stderr })
+}
+
+const REAL_LIMIT_S: u64 = 20;
+
 fn scratch(name: &str) -> PathBuf
 {
     let p = report::work_dir().join(format!("{}-{}", name, std::process::id()));
     let _ = fs::remove_dir_all(&p);
     fs::create_dir_all(&p).expect("create scratch dir");
     p
+}
+
+/// C15 through the command line: `ruler hash <path>` of the real binary for files of boundary
+/// lengths and for small directory trees before / after a rename.  Returns (evaluations, findings).
+pub fn hash_cli_family() -> Result<(u64, Vec<(String, String)>), String>
+{
+    let bin = build_real_binary()?;
+    let dir = scratch("hashcli");
+    let mut bad = vec![];
+    let mut n = 0u64;
+    let run = |rel: &str| -> String
+    {
+        match output_limited(Command::new(&bin).args(["hash", rel]).current_dir(&dir), REAL_LIMIT_S)
+        {
+            Some(out) => strip_ansi(&String::from_utf8_lossy(&out.stdout)).trim().to_string(),
+            None => format!("(`ruler hash` did not end within {} s)", REAL_LIMIT_S),
+        }
+    };
+    for len in [0usize, 1, 55, 56, 63, 64, 255, 256, 257, 511, 512, 513, 4095, 4096, 4097, 8192, 65535, 65536, 65537, 200_000]
+    {
+        for pat in 0..2u8
+        {
+            let data: Vec<u8> = (0..len).map(|i| if pat == 0 { (i % 251) as u8 } else { 0xff - (i % 7) as u8 }).collect();
+            let p = dir.join("f.bin");
+            fs::write(&p, &data).map_err(|e| e.to_string())?;
+            n += 1;
+            let got = run("f.bin");
+            let want = refsha::encode62(&refsha::sha256(&data));
+            if got != want { bad.push(("`ruler hash` of a file differs from the base-62 SHA-256 of its bytes".to_string(), format!("length {} pattern {}: {:?} vs {}", len, pat, got, want))); }
+        }
+    }
+    // directories: the hash changes when a contained name or content changes, and does not depend on
+    // the order in which the entries were created
+    let mk = |name: &str, entries: &[(&str, Option<&[u8]>)]| -> Result<(), String>
+    {
+        let d = dir.join(name);
+        let _ = fs::remove_dir_all(&d);
+        fs::create_dir_all(&d).map_err(|e| e.to_string())?;
+        for (rel, data) in entries
+        {
+            let p = d.join(rel);
+            match data
+            {
+                Some(b) => { if let Some(par) = p.parent() { let _ = fs::create_dir_all(par); } fs::write(&p, b).map_err(|e| e.to_string())?; },
+                None => { fs::create_dir_all(&p).map_err(|e| e.to_string())?; },
+            }
+        }
+        Ok(())
+    };
+    let base: Vec<(&str, Option<&[u8]>)> = vec![("a", Some(b"x")), ("b", Some(b"y")), ("sub", None), ("sub/c", Some(b"z")), ("empty", None)];
+    mk("t0", &base)?;
+    let h0 = run("t0");
+    n += 1;
+    if h0.len() != 43 { bad.push(("`ruler hash` of a directory is not a 43-character hash".to_string(), h0.clone())); }
+    let mut rev = base.clone();
+    rev.reverse();
+    // parents must exist before children: create in an order that differs but is valid
+    let reordered: Vec<(&str, Option<&[u8]>)> = vec![("empty", None), ("sub", None), ("sub/c", Some(b"z")), ("b", Some(b"y")), ("a", Some(b"x"))];
+    mk("t0", &reordered)?;
+    n += 1;
+    if run("t0") != h0 { bad.push(("`ruler hash` of a directory depends on the order in which its entries were created".to_string(), String::new())); }
+    let variants: Vec<(&str, Vec<(&str, Option<&[u8]>)>)> = vec![
+        ("a file renamed", vec![("a2", Some(b"x")), ("b", Some(b"y")), ("sub", None), ("sub/c", Some(b"z")), ("empty", None)]),
+        ("a file's content changed", vec![("a", Some(b"x!")), ("b", Some(b"y")), ("sub", None), ("sub/c", Some(b"z")), ("empty", None)]),
+        ("a nested file renamed", vec![("a", Some(b"x")), ("b", Some(b"y")), ("sub", None), ("sub/d", Some(b"z")), ("empty", None)]),
+        ("a nested file's content changed", vec![("a", Some(b"x")), ("b", Some(b"y")), ("sub", None), ("sub/c", Some(b"zz")), ("empty", None)]),
+        ("a sub-directory renamed", vec![("a", Some(b"x")), ("b", Some(b"y")), ("sub2", None), ("sub2/c", Some(b"z")), ("empty", None)]),
+        ("an empty sub-directory renamed", vec![("a", Some(b"x")), ("b", Some(b"y")), ("sub", None), ("sub/c", Some(b"z")), ("empty2", None)]),
+        ("an entry removed", vec![("a", Some(b"x")), ("sub", None), ("sub/c", Some(b"z")), ("empty", None)]),
+        ("two contents swapped", vec![("a", Some(b"y")), ("b", Some(b"x")), ("sub", None), ("sub/c", Some(b"z")), ("empty", None)]),
+    ];
+    for (what, v) in variants
+    {
+        mk("t0", &v)?;
+        n += 1;
+        if run("t0") == h0 { bad.push(("`ruler hash` of a directory is unchanged after a contained name or content changed".to_string(), what.to_string())); }
+    }
+    // symbolic links are entries like any other: adding, renaming or removing one changes a contained name
+    {
+        mk("t1", &base)?;
+        fs::write(dir.join("outside.txt"), b"o").map_err(|e| e.to_string())?;
+        let h1 = run("t1");
+        n += 1;
+        std::os::unix::fs::symlink("../outside.txt", dir.join("t1/link")).map_err(|e| e.to_string())?;
+        let h2 = run("t1");
+        n += 1;
+        if h2 == h1 || h2.len() != 43 { bad.push(("`ruler hash` of a directory is unchanged after a contained name or content changed".to_string(), format!("a symbolic link to a file added: {:?} -> {:?}", h1, h2))); }
+        fs::rename(dir.join("t1/link"), dir.join("t1/link2")).map_err(|e| e.to_string())?;
+        let h3 = run("t1");
+        n += 1;
+        if h3 == h2 { bad.push(("`ruler hash` of a directory is unchanged after a contained name or content changed".to_string(), "a symbolic link renamed".to_string())); }
+        fs::remove_file(dir.join("t1/link2")).map_err(|e| e.to_string())?;
+        n += 1;
+        if run("t1") != h1 { bad.push(("`ruler hash` of a directory is not a function of its names and contents".to_string(), "after adding and removing a symbolic link".to_string())); }
+    }
+    let _ = fs::remove_dir_all(&dir);
+    Ok((n, bad))
 }
 
 // ---------------------------------------------------------------------------
@@ -98,7 +222,11 @@ pub struct RealRun
 
 fn run_ruler(bin: &Path, dir: &Path, args: &[&str]) -> RealRun
 {
-    let out = Command::new(bin).args(args).current_dir(dir).output().expect("run ruler");
+    let out = match output_limited(Command::new(bin).args(args).current_dir(dir), REAL_LIMIT_S)
+    {
+        Some(o) => o,
+        None => return RealRun { ok: false, stderr: format!("ruler {:?} did not end within {} s", args, REAL_LIMIT_S), banners: vec![] },
+    };
     let stdout = strip_ansi(&String::from_utf8_lossy(&out.stdout));
     let stderr = String::from_utf8_lossy(&out.stderr).to_string();
     let mut banners = vec![];
@@ -242,7 +370,7 @@ fn apply_real(bin: &Path, dir: &Path, sc: &Scenario, op: &Op) -> Option<RealRun>
         Op::RmHistory => { let _ = fs::remove_dir_all(dir.join(HISTORY_DIR)); None },
         Op::RmCache => { let _ = fs::remove_dir_all(dir.join(CACHE_DIR)); None },
         Op::RmTable => { let _ = fs::remove_file(dir.join(TABLE_FILE)); None },
-        Op::Rules { k } => { write_file(dir, RULES_FILE, render_rules(&sc.variants[*k]).as_bytes()); None },
+        Op::Rules { k } => { write_file(dir, RULES_FILE, render_rules_spelled(&sc.variants[*k], sc.flat_variants.contains(k)).as_bytes()); None },
         Op::Backdate { .. } | Op::CorruptHistory { .. } | Op::CorruptTable => None,
         Op::SetAside { path } => { let _ = fs::rename(dir.join(path), dir.join(format!("{}.aside", path))); None },
         Op::MoveBack { path } => { let _ = fs::rename(dir.join(format!("{}.aside", path)), dir.join(path)); None },
@@ -268,7 +396,7 @@ pub fn replay_trace_real(bin: &Path, sc: &Scenario, ops: &[Op], dir: &Path) -> O
     let _ = fs::remove_dir_all(dir);
     fs::create_dir_all(dir).ok()?;
     for (p, dom) in &sc.edits { write_file(dir, p, &dom[0]); }
-    write_file(dir, RULES_FILE, render_rules(&sc.variants[0]).as_bytes());
+    write_file(dir, RULES_FILE, render_rules_spelled(&sc.variants[0], sc.flat_variants.contains(&0)).as_bytes());
     for (i, op) in ops.iter().enumerate()
     {
         if i >= model.len() { break; }
@@ -356,7 +484,8 @@ pub fn run_realfs(rep: &mut Report, tier: &str)
     let bin = match build_real_binary() { Ok(b) => b, Err(e) => { rep.machinery(e); return; } };
     let thorough = tier == "thorough";
     let depth = if thorough { 4 } else { 3 };
-    let mut scs = vec![crate::scen::s6_exec(), crate::scen::s1_chain(), crate::scen::s3_multi()];
+    // S10: targets inside a sub-directory; S13: contents that are not UTF-8; S18: zero-byte files
+    let mut scs = vec![crate::scen::s6_exec(), crate::scen::s1_chain(), crate::scen::s3_multi(), crate::scen::s10_bundle(), crate::scen::s13_binary(), crate::scen::s18_empty()];
     if thorough { scs.push(crate::scen::s4_twins()); }
     // keep only leaf traces: a trace that is a proper prefix of another is covered by it step by step
     let mut total = 0u64;
@@ -913,11 +1042,11 @@ pub fn run_serve(rep: &mut Report, tier: &str)
 {
     let bin = match build_real_binary() { Ok(b) => b, Err(e) => { rep.machinery(e); return; } };
     let thorough = tier == "thorough";
-    let cap = if thorough { 60 } else { 12 };
+    let cap = if thorough { 80 } else { 16 };
     let mut dirs: Vec<(String, Vec<Op>, Fs)> = vec![];
-    for sc in [crate::scen::s1_chain(), crate::scen::s3_multi(), crate::scen::s13_binary()]
+    for sc in [crate::scen::s1_chain(), crate::scen::s3_multi(), crate::scen::s13_binary(), crate::scen::s18_empty()]
     {
-        for (p, fs) in ruler_dirs(&sc, if thorough { 5 } else { 4 }, cap / 3)
+        for (p, fs) in ruler_dirs(&sc, if thorough { 5 } else { 4 }, cap / 4)
         {
             dirs.push((sc.name.clone(), p, fs));
         }
